@@ -45,3 +45,5 @@ pub mod dividers;
 pub use dividers::*;
 pub mod pm1;
 pub use pm1::*;
+pub mod isqrt;
+pub use isqrt::*;
